@@ -207,7 +207,9 @@ pub fn gen_hist(o: &Opts, r: &mut Rng, k: u64, tier: &str) -> Vec<String> {
             _ => (Some(if o.prop == "C09" { 1_000_000 } else { n }), Some(*r.pick(&ages))),
         },
     };
-    let cleanup = if o.cleanup {
+    // fault histories (C19): half of them without cleanup, where the stream oracle can judge
+    // what a failed step has cost
+    let cleanup = if o.cleanup && !(o.faults && r.chance(1, 2)) {
         let (kk, mm) = if has_suffix { (r.below(4), r.below(4)) } else { (r.below(4), 0) };
         if kk + mm == 0 && r.chance(1, 2) { format!("{},{}", 1, 0) } else if kk + mm == 0 { "0,1".to_string() } else { format!("{kk},{mm}") }
     } else {
@@ -281,7 +283,7 @@ pub fn gen_hist(o: &Opts, r: &mut Rng, k: u64, tier: &str) -> Vec<String> {
             if naming == "tsd" && append && o.prop != "C06x" { append = false; }
             c.push(format!("RESTART {}", cfg_line(&rot, append, cap, symlink, has_suffix)));
             written_since_start = false;
-        } else if roll == 3 && o.ext && written_since_start && (naming == "num" || naming == "ts" || rot.is_none()) {
+        } else if roll == 3 && o.ext && written_since_start {
             c.push(if r.chance(3, 4) { "EXTREN".into() } else { "EXTRM".into() });
             if r.chance(1, 3) {
                 c.push(format!("W {} {} -", hex(&record(seq, r.range(1, 20))), tick(&mut clock, r)));
@@ -430,7 +432,7 @@ fn gen_c15_records(tier: &str, seed: u64) -> Vec<Vec<String>> {
     gen_with(Opts { prop: "C15", size: true, age: false, force_rot: true, restarts: 0, cleanup: false, faults: false, ext: false, modes: true, max_ops: 40, namings: ALL, foreign: false, exist: false, bg: 0 }, tier, seed, 500, 6000)
 }
 pub fn gen_c18(tier: &str, seed: u64) -> Vec<Vec<String>> {
-    gen_with(Opts { prop: "C18", size: true, age: false, force_rot: true, restarts: 0, cleanup: false, faults: false, ext: true, modes: false, max_ops: 40, namings: &["num", "ts"], foreign: false, exist: false, bg: 0 }, tier, seed, 500, 6000)
+    gen_with(Opts { prop: "C18", size: true, age: false, force_rot: true, restarts: 0, cleanup: false, faults: false, ext: true, modes: false, max_ops: 40, namings: ALL, foreign: false, exist: false, bg: 0 }, tier, seed, 500, 6000)
 }
 pub fn gen_c19(tier: &str, seed: u64) -> Vec<Vec<String>> {
     gen_with(Opts { prop: "C19", size: true, age: true, force_rot: true, restarts: 0, cleanup: true, faults: true, ext: false, modes: false, max_ops: 40, namings: ALL, foreign: false, exist: false, bg: 0 }, tier, seed, 500, 6000)
